@@ -215,6 +215,16 @@ func tryPartial(env Env, nodes []ast.IsNode,
 	}
 	if ok {
 		eval := mkEval(values)
+		switch eval.(type) {
+		case *attributeAccessEval, *partialHasEval, *recordLiteralEval, *setLiteralEval, *variableEval:
+			// these only select from or build composite values: a nested variable stays visible in the result
+		default:
+			// anything else (==, contains, in, ...) would compute with the variable marker as if it were the
+			// final value; wait until the variable has been substituted
+			if slices.ContainsFunc(values, containsVariable) {
+				return mkNode(nodes), errVariable
+			}
+		}
 		v, err := eval.Eval(env)
 		if err != nil {
 			return nil, err
